@@ -8,13 +8,13 @@ from vf.ref import codec, party
 from vf.checks import c02
 
 RULE = ('RESPONDER: a hub daemon with two configured peers holds e established IKE_SAs (e in {0,1,3}, created by an independent initiator with valid AUTH) and '
-        'h half-open ones, for thresholds {0,3,10} and h in {0, thr-1, thr, thr+1, thr+2, 3*thr}; then receives IKE_SA_INIT requests with cookies: absent, '
+        'h half-open ones (a third of the cases after the daemon itself had opened three IKE_SAs and closed two of them again), for thresholds {0,3,10} and h in {0, thr-1, thr, thr+1, thr+2, 3*thr}; then receives IKE_SA_INIT requests with cookies: absent, '
         'correct, single bits flipped, truncated, extended, replayed with another SPI / nonce / source address, two cookies (right first, wrong first, both wrong), a '
         'cookie minted by a previous controller incarnation, and requests that re-use the initiator SPI of a half-open IKE_SA just created through a cookie round (late copy of the cookie-less request, the cookie-bearing request replayed from the other peer address, another nonce with / without the old cookie). Oracle (through the real main_loop, DH constructors and compute_secret tapped): when the half-open '
         'count already exceeds the threshold and no presented cookie equals HMAC-SHA256(secret, SPIi | Ni | source address) (computed with hmac), the reply is exactly '
         'one payload N(COOKIE) carrying that value, Message ID 0, zero DH operations in the step and the table is as before; with the right cookie and unchanged '
         'SPI / nonce / address the normal response (SA, KE, Nonce) follows. INITIATOR: a real initiator answered with N(COOKIE) must repeat its request with '
-        'Message ID 0, N(COOKIE) first and all original payloads byte-identical after it, a second challenge with another cookie must be answered with the NEW cookie first; then it completes against the independent responder. '
+        'Message ID 0, N(COOKIE) first and all original payloads byte-identical after it, a second challenge with another cookie must be answered with the NEW cookie first; when the repeated request is lost the retransmission timer sends exactly it again (also when the cookie-less request had already been retransmitted before the challenge arrived); then it completes against the independent responder. '
         'distinct = (threshold, e, h, cookie variant, outcome).')
 ASSUMPTIONS = ['at the boundary (count equal to the threshold) either behaviour is accepted; a cookie is only REQUIRED to be demanded once the existing half-open count exceeds the threshold',
                'with several cookies the property only forbids acceptance when none is right']
@@ -69,10 +69,22 @@ def establish(sim, hub, rng, src):
     return any(s.state.name == 'ESTABLISHED' and bytes(s.peer_spi) == p.spi for s in hub.ctl.ike_sas)
 
 
-def responder_case(ck, rng, thr, e, h, variant, i):
+def responder_case(ck, rng, thr, e, h, variant, i, own=0):
     sim, hub, (p1, p2) = S.make_star(ck.seed * 23 + i, peers=2)
     hub.ctl.cookie_threshold = thr
-    sim.case = {'family': 'responder', 'threshold': thr, 'established': e, 'half_open': h, 'variant': variant}
+    sim.case = {'family': 'responder', 'threshold': thr, 'established': e, 'half_open': h, 'variant': variant, 'own_ike_sas_before': own}
+    # a long-lived daemon is initiator as well as responder: `own` IKE_SAs of its own were opened (and all but the last closed again) before the flood
+    for k_ in range(own):
+        sim.acquire(hub, 1, dport=7300 + k_)
+        sim.drain()
+        mine = [x for x in hub.ctl.ike_sas if x.is_initiator and x.state.name == 'ESTABLISHED']
+        if mine:
+            ck.count('responder.own_ike_sas_completed')
+        if mine and k_ < own - 1:
+            mine[0].delete_ike_sa_at = sim.clock.t - 1
+            mine[0].rekey_ike_sa_at = sim.clock.t - 1
+            hub.step('tick')
+            sim.drain()
     for _ in range(e):
         if not establish(sim, hub, rng, P1A):
             ck.count('setup.establish_failed')
@@ -215,6 +227,17 @@ def initiator_case(ck, rng, i):
     me, peer = (S.A6, S.B6) if kw.get('v6') else (S.A4, S.B4)
     sim.acquire(a, 0)
     req1 = sim.net.pop(0).data
+    # i % 3 == 1: the challenge is slow: the cookie-less request has already been retransmitted once or twice when it arrives
+    early = (i % 3 == 1) * (1 + (i // 3) % 2)
+    for _ in range(early):
+        for _t in range(8):
+            sim.tick_all(1.0)
+            if sim.net:
+                break
+        if sim.net and sim.net.pop(0).data != req1:
+            ck.violation('retransmission-of-the-cookie-less-request-differs-from-it', {}, sim.case)
+        sim.net.clear()
+    sim.case['request_retransmitted_before_the_challenge'] = early
     cookie = gen.rb(rng, rng.choice([1, 16, 32, 64]))
     m1 = codec.decode(req1, strict_bodies=True)
     res = {'spi_i': m1['spi_i'], 'spi_r': b'\0' * 8, 'major': 2, 'minor': 0, 'exch': 34, 'flags': 0x20, 'mid': 0,
@@ -239,6 +262,23 @@ def initiator_case(ck, rng, i):
         ck.violation('repeated-request-does-not-carry-the-identical-original-payloads', {'first': [t for t, _ in rest1], 'second': [t for t, _ in rest2]}, sim.case)
         return
     ck.count('initiator.repeated_identically')
+    # the repeated request is lost: what the retransmission timer sends next must be THAT request (cookie first), octet for octet
+    if i % 3 != 2:
+        for _t in range(10):
+            sim.tick_all(1.0)
+            if sim.net:
+                break
+        ck.count('initiator.retransmissions_of_the_repeated_request')
+        if not sim.net:
+            ck.violation('repeated-request-with-the-cookie-never-retransmitted', {'retransmitted_before_the_challenge': early}, sim.case)
+            return
+        rt = sim.net.pop(0).data
+        sim.net.clear()
+        if rt != req2:
+            ck.violation('retransmission-after-the-cookie-round-is-not-the-repeated-request', {'retransmitted_before_the_challenge': early, 'sent': rt[:48], 'want': req2[:48]}, sim.case)
+            return
+        if early:
+            ck.count('initiator.retransmissions_checked_after_an_earlier_retransmission')
     # a SECOND challenge with another cookie (the responder restarted / rotated its secret): the new cookie must come first and
     # the original payloads must still follow unchanged
     if i % 2 == 0:
@@ -300,7 +340,7 @@ def run(ck):
                             continue
                         if not thorough and e == 3 and v.startswith('bitflip') and v != 'bitflip-1':
                             continue
-                        responder_case(ck, ck.rng('resp', n), thr, e, h, v, n)
+                        responder_case(ck, ck.rng('resp', n), thr, e, h, v, n, own=3 if (n // 8) % 3 == 0 else 0)
     for i in range(24 if not thorough else 3000):
         if ck.mine(i):
             initiator_case(ck, ck.rng('init', i), i)
@@ -311,8 +351,11 @@ def verdict(ck):
     ck.floor('requests that had to be refused with a cookie', c['responder.must_demand'], 150)
     ck.floor('valid cookies accepted under load', c['responder.valid_cookie_accepted'], 15)
     ck.floor('grid cells', len(ck.sets['responder.grid']), 400)
+    ck.floor('IKE_SAs the daemon opened itself before the flood', c['responder.own_ike_sas_completed'], 200)
     ck.floor('requests re-using the SPI of a half-open IKE_SA created through a cookie round', c['responder.half_open_spi_setups_with_cookie'], 60)
     ck.floor('initiator cookie challenges', c['initiator.cookie_challenges'], 20)
     ck.floor('initiators that completed after the cookie round', c['initiator.completed_after_cookie'], 10)
+    ck.floor('retransmissions of the repeated request compared', c['initiator.retransmissions_of_the_repeated_request'], 12)
+    ck.floor('... of which after the cookie-less request had itself been retransmitted', c['initiator.retransmissions_checked_after_an_earlier_retransmission'], 5)
     ck.floor('second cookie challenges', c['initiator.second_challenges'], 8)
     return None
